@@ -34,7 +34,7 @@ type c18srv struct {
 	gates    sync.Map // request id -> chan struct{}
 	once     sync.Map
 	accepted sync.Map // remote address of every connection OnAccept saw
-	arrived  sync.Map // request id -> struct{}
+	arrived  sync.Map // request id -> time the handler was entered (unix nanos)
 	hookLog  []string
 	hookMu   sync.Mutex
 	runErr   chan error
@@ -94,7 +94,7 @@ func c18start(transport int, exitWait time.Duration, hooks []int, acceptDelay ..
 	s.h = server.New(opts...)
 	s.h.GET("/w", func(c context.Context, ctx *app.RequestContext) {
 		id := string(ctx.Query("id"))
-		s.arrived.Store(id, struct{}{})
+		s.arrived.Store(id, time.Now().UnixNano())
 		<-s.gate(id)
 		body := bytes.Repeat([]byte("x"), c18bodyLen-len(id))
 		ctx.Data(200, "text/plain", append(body, id...))
@@ -231,7 +231,7 @@ func init() {
 							close(relDone)
 						}()
 						res := c18read(br, id)
-						if _, arrived := s.arrived.Load(id); arrived && exitWait > time.Duration(pl.delay+150)*time.Millisecond {
+						if at, arrived := s.arrived.Load(id); arrived && at.(int64) < shutdownBegan.Load() && exitWait > time.Duration(pl.delay+150)*time.Millisecond {
 							if !res.complete {
 								bad("received-request-without-a-complete-response", id+": "+res.err)
 							} else if <-relDone; afterShutdown.Load() && !res.close {
@@ -242,7 +242,7 @@ func init() {
 						s.release(id)
 						fmt.Fprint(c, reqText(id))
 						res := c18read(br, id)
-						if _, arrived := s.arrived.Load(id); arrived && !res.complete {
+						if at, arrived := s.arrived.Load(id); arrived && !res.complete && (shutdownBegan.Load() == 0 || at.(int64) < shutdownBegan.Load()) {
 							bad("received-request-without-a-complete-response", id+" (before shutdown): "+res.err)
 						}
 						// stay connected until the server closes or the deadline passes
@@ -279,7 +279,9 @@ func init() {
 							return
 						}
 						res := c18read(br, id)
-						if _, arrived := s.arrived.Load(id); arrived && !res.complete {
+						// "already received" = its handler had been entered when the shutdown was requested; a request that
+						// reaches the server after that is not promised anything (netpoll may close a connection it takes for idle)
+						if at, arrived := s.arrived.Load(id); arrived && !res.complete && at.(int64) < shutdownBegan.Load() {
 							bad("received-request-without-a-complete-response", id+" (sent at shutdown time): "+res.err)
 						}
 					}
